@@ -1,6 +1,7 @@
 import PEval.Driver.Util
 import PEval.Model.Matching
 import PEval.Model.MatchDispatch
+import PEval.Model.MatchHeap
 /-! Driver handler for C01 (and, through `C02.lean`, C02): runs `Matching.getObjectResults`.
 
 Request: `{"op":"match","policy":"DEFAULT|ALLOW_UNKNOWN|ALLOW_ANY","mode":"center|plane|iou2d|iou3d",
@@ -12,8 +13,13 @@ Response: `{"results":[[i,j|null]…],"stage1":k}` (+ `"table":[[[score|null,val
 
 Request `"op":"matchx"` = the same fields plus what the dispatch at the top of `get_object_results` reads:
 `"is2d":bool,"uuid_first":bool,"est_tl":[bool…],"est_uuid":[str|null…],"est_roi_none":[bool…]` and the
-same three for `gt_`; runs `MatchDispatch.getObjectResultsX` and adds `"path":"geometric|tlr|id|early"`
-to the response (the table only on the geometric path). -/
+same three for `gt_`; runs `MatchDispatch.getObjectResultsXE` (= `getObjectResultsX` on lists whose same-frame pairs
+all carry what the mode reads, `C01.xe_eq_x_of_readable`) and adds `"path":"geometric|tlr|id|early"`
+to the response (the table only on the geometric path).  On the geometric path and the early returns the response also
+carries `"heap"`: the run of the heap model `MatchHeap.getObjectResultsH` on the store `[[0..nE-1],[nE..nE+nG-1]]`
+(caller's estimate list at address 0, ground-truth list at address 1; object `k` of the estimates is reference `k`,
+object `k` of the ground truths reference `nE+k`): `{"ests_after":[…],"gts_after":[…],"results":[[e,g|null]…]|null}` =
+the content of the caller's two lists after the call and the results as object references. -/
 open Lean
 
 namespace PEval.Driver.C01
@@ -118,6 +124,25 @@ def pathName : Option Path → String
 
 end matchx
 
+section heap
+open PEval.MatchHeap
+
+/-- the heap model on the canonical store of a scene -/
+def heapJson (c : Cfg) (sc : Scene) : Json :=
+  let nE := sc.ests.length
+  let nG := sc.gts.length
+  let w : World :=
+    { obj := fun o => if o < nE then sc.ests.getD o ⟨"", ""⟩ else sc.gts.getD (o - nE) ⟨"", ""⟩,
+      val := fun a b => sc.val a (b - nE) }
+  let h : Heap := ⟨[List.range nE, (List.range nG).map (· + nE)]⟩
+  let r := getObjectResultsH c w h 0 1
+  let res : Json := match r.1 with
+    | .ok rs => jList (fun (x : RRes) => Json.arr #[jNat x.1, jOptNat x.2]) rs
+    | .error _ => Json.null
+  Json.mkObj [("ests_after", jList jNat (r.2.read 0)), ("gts_after", jList jNat (r.2.read 1)), ("results", res)]
+
+end heap
+
 def handle : Json → Except String Json := fun j => do
   let op ← getStr j "op"
   match op with
@@ -144,8 +169,10 @@ def handle : Json → Except String Json := fun j => do
     let sc := MatchDispatch.toScene sx
     let tbl : List (String × Json) :=
       if wantTable && path == some .geometric then [("table", tableJson c sc)] else []
-    let pj : List (String × Json) := [("path", Json.str (pathName path))]
-    match MatchDispatch.getObjectResultsX uf c sx with
+    let hp : List (String × Json) :=
+      if path == some .geometric || path == none then [("heap", heapJson c sc)] else []
+    let pj : List (String × Json) := [("path", Json.str (pathName path))] ++ hp
+    match MatchDispatch.getObjectResultsXE uf c sx with
     | .ok rs => pure (Json.mkObj ([("results", jList resJson rs)] ++ pj ++ tbl))
     | .error k => pure (Json.mkObj ([("err", Json.str k)] ++ pj))
   | o => throw s!"unknown op {o}"
